@@ -39,9 +39,25 @@ CLAIMED["C12"] = {
     "technique": "TLA+ model checking of a transcribed mechanism spec + TLC history generation + TLC trace validation of real-code state projections",
 }
 
+CLAIMED["C13"] = {
+    "level": "model_checking",
+    "text": ("The meaning of every duplex operation is the set-algebra spec IdSet.tla; TLC enumerates every history from every "
+             "initial content of two objects (depth 1 under all 40 configurations = width x receiver/operand implementation x "
+             "integer embedding; depth 2 and random walks under rotating configurations) and validates, for each real run, the "
+             "call results and the content of every live object after every call. The wrappers' lock protocol is model-checked "
+             "(IdSetLock.tla: deadlock freedom, atomicity of binary operations, 3 clients) and its two counterexample schedules "
+             "for the pinned protocol (ABBA, operand toggle) are forced on the real code; free-running concurrent histories "
+             "under -race are checked for linearizability by TLC."),
+    "design_ref": "DESIGN.md 4/C13",
+    "note": ("Universe of 3-5 abstract elements under 5 embeddings (dense, around 2^16, around 2^32, sparse, top of range); operand "
+             "is never the receiver; HyperLogLog providers out of scope; concurrent schedules other than the two forced ones are "
+             "sampled. Trusts TLC, the race detector, Slice()/Cardinality() as the read-back."),
+    "technique": "TLA+ set-algebra spec as trace-validation oracle, TLC-enumerated histories x configurations, model-checked lock protocol with forced counterexample schedules, linearizability by trace validation",
+}
+
 _NB = "not built yet in this round (design in DESIGN.md section 4)"
 NOT_APPLICABLE = {
     "C01": "needs the emitted SQL executed on PostgreSQL; no SQL engine exists in this sandbox and a TLA+ model of PostgreSQL would verify the model, not DAWGS (DESIGN.md section 5)",
     "C02": _NB, "C03": _NB, "C04": _NB, "C05": _NB, "C06": _NB, "C07": _NB, "C08": _NB, "C09": _NB, "C10": _NB,
-    "C11": _NB, "C13": _NB, "C14": _NB, "C15": _NB, "C17": _NB, "C18": _NB, "C19": _NB, "C20": _NB,
+    "C11": _NB, "C14": _NB, "C15": _NB, "C17": _NB, "C18": _NB, "C19": _NB, "C20": _NB,
 }
